@@ -163,15 +163,15 @@ def handle (model : String) : List String → String
     match closeLat.toNat?, lat.toNat?, laterLat.toNat?, field kvs "open", field kvs "late", field kvs "gor" with
     | some cl, some lat, some ll, some open_, some late, some gor =>
       let second := kvs.any (· = "second=ok")
-      if cl > 1000000 then s!"SPEC key=close-blocks state={state}"
-      else if inflight = "blocked" || lat > 500000 then s!"SPEC key=inflight-call-not-released-by-close state={state}"
+      if cl > 1000000 then s!"SPEC key=close-blocks-{state}"
+      else if inflight = "blocked" || lat > 500000 then s!"SPEC key=inflight-call-not-released-by-close-{state}"
       else if inflight ≠ "none" && inflight ≠ "clientclosed" && inflight ≠ "ok" then
-        s!"SPEC key=inflight-call-wrong-error state={state} result={inflight}"
-      else if later = "blocked" || ll > 500000 then s!"SPEC key=call-after-close-blocks state={state}"
-      else if later ≠ "clientclosed" then s!"SPEC key=call-after-close-not-refused state={state} result={later}"
-      else if open_ ≠ 0 then s!"SPEC key=connection-left-open-after-close state={state} open={open_}"
-      else if late ≠ 0 then s!"SPEC key=activity-after-close state={state} events={late}"
-      else if gor > 2 then s!"SPEC key=goroutines-left-after-close state={state} extra={gor}"
+        s!"SPEC key=inflight-call-wrong-error-{state} result={inflight}"
+      else if later = "blocked" || ll > 500000 then s!"SPEC key=call-after-close-blocks-{state}"
+      else if later ≠ "clientclosed" then s!"SPEC key=call-after-close-not-refused-{state} result={later}"
+      else if open_ ≠ 0 then s!"SPEC key=connection-left-open-after-close-{state} open={open_}"
+      else if late ≠ 0 then s!"SPEC key=activity-after-close-{state} events={late}"
+      else if gor > 2 then s!"SPEC key=goroutines-left-after-close-{state} extra={gor}"
       else if !second then "SPEC key=second-close-panics"
       else s!"OK tags=close,{state},{inflight}"
     | _, _, _, _, _, _ => "BAD close fields"
